@@ -81,13 +81,10 @@ ClosePropagates == \A d \in Dirs : (wclosed[d] ~> (eof[d] \/ wclosed[Other(d)]))
 
 (*********** token bucket (golang.org/x/time/rate as used by pkg/util/limit) ***********)
 \* Samples are <<ms, cumulative bytes>>; between any two samples at most rate x interval + burst (+ slack) bytes pass.
-RECURSIVE RateOKFrom(_, _, _, _, _, _)
-RateOKFrom(s, i, j, rate, burst, slack) ==
-  IF i > Len(s) THEN TRUE
-  ELSE IF j > Len(s) THEN RateOKFrom(s, i + 1, i + 2, rate, burst, slack)
-  ELSE /\ s[j][2] - s[i][2] <= (rate \div 1000) * (s[j][1] - s[i][1]) + burst + slack
-       /\ RateOKFrom(s, i, j + 1, rate, burst, slack)
+\* (quantifiers, not a recursive operator: TLC's evaluation context grows with the recursion depth, and a trace with a few hundred
+\* samples took minutes that way)
 RateOK(s, rate, burst, slack) ==
   /\ Len(s) = 0 \/ s[1][2] <= (rate \div 1000) * s[1][1] + burst + slack
-  /\ RateOKFrom(s, 1, 2, rate, burst, slack)
+  /\ \A i \in 1..Len(s) : \A j \in (i + 1)..Len(s) :
+        s[j][2] - s[i][2] <= (rate \div 1000) * (s[j][1] - s[i][1]) + burst + slack
 =============================================================================
